@@ -232,7 +232,7 @@ def check(ctx, gmon, g, pkeys, parser, name, case, inp, ends, ref, chart):
         return
     if len(forms) != len(got):
         dups = gmon.duplicates(o.forest.result)
-        known = findings.duplicate_packing_known(dups)
+        known = findings.duplicate_packing_known(dups, gmon)
         if known and glrobs.identity_count(o.forest, dedupe=True) != len(got):
             known = None
         ctx.violation("derivation-more-than-once", case, "%d trees, %d distinct" % (len(forms), len(got)), known=known)
